@@ -473,8 +473,8 @@ def r2_2(ctx: Ctx) -> RuleResult:
     return rr
 
 
-def r2_3(ctx: Ctx) -> RuleResult:
-    rr = RuleResult("R2.3", "filter context binding: $ root, @ candidate, key, extra context", floor=28)
+def r2_3(ctx: Ctx, rule: str = "R2.3") -> RuleResult:
+    rr = RuleResult(rule, "filter context binding: $ root, @ candidate, key, extra context", floor=28)
     flt = ctx.repo.require_class("jsonpath.selectors.Filter")
     n_ctx = 0
     for name in ("resolve", "resolve_async"):
